@@ -47,7 +47,10 @@ def gen_tree(ctx):
             big += '[Unit]\nDescription=' + 'd' * rnd.choice([1023, 1024, 5000]) + '\n'
         fs['big%d.container' % target] = big
     for n, t in fs.items():
-        if rnd.random() < 0.4:
+        if '@.' in n and rnd.random() < 0.5:
+            # a template without instance whose alias is its own service name
+            t += '[Install]\n' + rnd.choice(['', 'DefaultInstance=one\n']) + 'Alias=' + n.rsplit('.', 1)[0] + ('' if n.endswith(('.container', '.kube')) else '-' + n.rsplit('.', 1)[-1]) + '.service\n'
+        elif rnd.random() < 0.4:
             t += '[Install]\n' + rnd.choice(['WantedBy=default.target\n', 'WantedBy=a.target b.target\nAlias=foo.service\n', 'RequiredBy=x.service\nAlias=sub/dir/y.service\n',
                                              'Alias=../escape.service /abs/x.service\n', 'DefaultInstance=i1\nWantedBy=m.target\n',
                                              # an alias that is the name of the generated service itself (ignored: the file stays a file)
